@@ -6,6 +6,7 @@ package c06
 import (
 	"encoding/json"
 	"fmt"
+	"os"
 	"path/filepath"
 	"regexp"
 	"strconv"
@@ -43,6 +44,11 @@ func switches(ctx *vf.Ctx) map[string]bool {
 		if vf.IsKnown("C06", k) {
 			off[k] = true
 		}
+	}
+	// development aid: C06_OPEN=key,key re-enables excluded constructs to
+	// look for further root causes behind a known finding
+	for _, k := range strings.Split(os.Getenv("C06_OPEN"), ",") {
+		delete(off, k)
 	}
 	return off
 }
@@ -83,7 +89,7 @@ func finalPanic(stderr string) (string, bool) {
 // compare applies the C06 rule. It extends diff.Compare (same stdout bytes,
 // same ending, no deadlock, divergence, crash or escaped panic) with the
 // panic value and the usability of the interpreter afterwards.
-func compare(nat *oracle.Result, out *yrun.Outcome) diff.Verdict {
+func Compare(nat *oracle.Result, out *yrun.Outcome) diff.Verdict {
 	v := diff.Compare(nat, out)
 	if v.Sig != "" || v.Discard != "" || v.Inconclusive != "" {
 		return v
@@ -117,7 +123,7 @@ func compare(nat *oracle.Result, out *yrun.Outcome) diff.Verdict {
 	return diff.Verdict{}
 }
 
-func job(src string) *yrun.Job { return &yrun.Job{Src: src, After: followUps} }
+func Job(src string) *yrun.Job { return &yrun.Job{Src: src, After: followUps} }
 
 func run(ctx *vf.Ctx) {
 	off := switches(ctx)
@@ -157,8 +163,8 @@ func run(ctx *vf.Ctx) {
 			return
 		}
 		_, nat := batch.Ensure(oracle.Single(src))
-		out := pool.Run(job(src), 3*time.Minute)
-		v := compare(nat, &out)
+		out := pool.Run(Job(src), 3*time.Minute)
+		v := Compare(nat, &out)
 		ctx.Eval()
 		switch {
 		case v.Inconclusive != "":
@@ -166,6 +172,9 @@ func run(ctx *vf.Ctx) {
 		case v.Discard != "":
 			discards++
 			ctx.Class("discard:" + v.Discard)
+			if ctx.Survey {
+				ctx.CaseFail(t, "discard-"+v.Discard, "native side cannot be judged: "+nat.Stderr, Case{Src: src})
+			}
 		case v.Sig != "":
 			p.collectFeatures()
 			ctx.CaseFail(t, v.Sig, v.Msg, Case{Src: src, Features: p.FeatureList()})
@@ -233,8 +242,8 @@ func replay(ctx *vf.Ctx, data json.RawMessage) (string, string) {
 	_, nat := batch.Ensure(oracle.Single(c.Src))
 	pool := yrun.NewPool(1, filepath.Join(ctx.Scratch, "workers"))
 	defer pool.Close()
-	out := pool.Run(job(c.Src), 3*time.Minute)
-	v := compare(nat, &out)
+	out := pool.Run(Job(c.Src), 3*time.Minute)
+	v := Compare(nat, &out)
 	if v.Discard != "" || v.Inconclusive != "" {
 		return "", ""
 	}
@@ -259,7 +268,7 @@ func init() {
 	vf.Register(&vf.Check{
 		ID:    "C06",
 		Level: "exploration",
-		Rule:  "case = one generated program: a call tree of depth <= 5 of generated functions, each with enter/exit/defer markers, defer stacks (function literals with and without arguments, named functions, methods with pointer and value receivers, func values, func-typed parameters, close/delete/copy/panic/recover as deferred builtins, defers in loops), defer arguments with visible side effects, explicit panics (int, string, errors.New, custom error type, error variable, fmt.Errorf) and run-time faults (nil dereference, slice/array index, slice bounds, integer division/modulo by zero, nil-map write, failed assertion, close of closed channel), recover placed directly, as a call argument, in a named function or method, one call too deep, in a nested defer or absent, re-panic with the same or a new value, named results changed in deferred functions; oracle = native build (stdout bytes, ending, last 'panic:' value) + Eval result class (ok / interp.Panic; escaped, crash, deadlock, divergence are violations) + panic value text for explicit panics + three follow-up evaluations on the same interpreter; non-trivial = at the first panic >= 2 frames have pending defers and >= 1 recover site is pending (effective or not); distinct by source text",
+		Rule:  "case = one generated program: a call tree of depth <= 5 of generated functions (plus a recursive helper with a defer in every frame and function literals called at once), each with enter/exit/defer/raise markers; defer stacks built from function literals with and without arguments, named functions, methods with pointer and value receivers, func values (local literal, top-level function, func-typed parameter, nil), close/delete/copy/panic/recover as deferred builtins, conditional defers and defers in loops; defer arguments with visible side effects (counter calls, variables changed afterwards, receivers changed afterwards, an argument that panics); explicit panics (int, string, errors.New, custom error type, error variable, fmt.Errorf) and run-time faults (nil dereference, slice/array index, slice bounds, integer division/modulo by zero, nil-map write, failed assertion to concrete and from interface, close of closed channel) in function bodies, conditionally on the argument, and inside deferred functions; recover placed directly, as a call argument, in a named function or method, one call too deep, in a nested defer or absent; re-panic with the same or a new value; named results changed in deferred functions with and without recover; oracle = native build (stdout bytes, ending, last 'panic:' value) + Eval result class (ok / interp.Panic; escaped, crash, deadlock, divergence are violations) + panic value text for explicit panics + three follow-up evaluations on the same interpreter (1+1, definition and call of a panic/recover function); non-trivial = at the first panic >= 2 frames have pending defers and >= 1 recover site is pending (effective or deliberately ineffective); distinct by source text",
 		Assumptions: []string{
 			"the installed Go toolchain (go1.23, language level go1.22) is the reference, including for recover called by a deferred function of a frame that is not panicking itself",
 			"the text and dynamic type of run-time fault values are not compared: programs print them as 'recovered-runtime', classified by a whitelist of the program's own panic values",
